@@ -1,0 +1,28 @@
+//go:build verif
+
+// Contracts for the verif build tag (read by /verif/govc; comment-only).
+package oxia
+
+// Merging the per-shard answers of a comparison get: the merged answer is always one
+// of the two candidates; a missing or non-OK shard answer never replaces the selection;
+// EQUAL keeps the first hit; FLOOR/LOWER keep the greater and CEILING/HIGHER the
+// smaller of the two in the order of compareGetResponse (secondary key, then key, in the
+// hierarchical key order).
+//
+//@ func selectResponse(kc, selected, response) (res)
+//@ property C20
+//@ requires selected != nil && keyNotFound != nil
+//@ ensures res == selected || res == response
+//@ ensures response == nil || response.Status != 0 ==> res == selected
+//@ ensures response != nil && response.Status == 0 && selected == keyNotFound && 0 <= kc && kc <= 4 ==> res == response
+//@ ensures response != nil && response.Status == 0 && selected != keyNotFound && kc == 0 ==> res == selected
+//@ ensures response != nil && response.Status == 0 && selected != keyNotFound && (kc == 1 || kc == 3) ==> res == ite(compareGetResponse(selected, response) < 0, response, selected)
+//@ ensures response != nil && response.Status == 0 && selected != keyNotFound && (kc == 2 || kc == 4) ==> res == ite(compareGetResponse(selected, response) > 0, response, selected)
+//@ modifies nothing
+
+//@ func compareGetResponse
+//@ property C20
+//@ pure
+//@ requires a != nil && b != nil
+//@ reads fields(proto.GetResponse), fields(string), fields(uint8)
+//@ modifies nothing
